@@ -241,7 +241,7 @@ def w_compare(ctx, rng, i):
     n = int(rng.choice([1, 2, 3, 7, 16, 101, 1024]))
     kind = ["nonneg_real", "nonneg_real_noise", "real_any", "complex"][i % 4]
     thr_form = ["scalar", "npscalar", "list", "array", "esignal", "len1"][int(rng.integers(6))]
-    scale = float(10 ** rng.uniform(-3, 2))
+    scale = float(10 ** rng.uniform(-3, 2)) if i % 5 else float(10 ** rng.uniform(-12, -6))     # down to nA/pA-scale photocurrents
     noise = None
     if kind == "nonneg_real":
         sig = np.abs(rng.normal(0, 1, n)) * scale
@@ -259,6 +259,11 @@ def w_compare(ctx, rng, i):
     tv = np.abs(rng.normal(0, 1, n)) * scale if thr_form in ("list", "array", "esignal") else np.array([abs(rng.normal(0.7, 0.5)) * scale])
     if i % 7 == 0 and n > 1:   # thresholds exactly on sample values (ties)
         tv = np.abs(tot).copy() if tv.size == n else np.array([float(np.abs(tot)[0])])
+    elif i % 7 == 3:           # thresholds a few ppm / a few ulp away from sample values (near ties)
+        eps = float(rng.choice([1e-6, 1e-9, 1e-12, 4e-16])) * float(rng.choice([1, -1]))
+        tv = np.abs(tot) * (1 + eps) if tv.size == n else np.array([float(np.abs(tot)[n // 2]) * (1 + eps)])
+    elif i % 7 == 5 and tv.size == 1:
+        tv = np.array([0.0])   # compare with zero
     th = {"scalar": float(tv[0]), "npscalar": np.float64(tv[0]), "list": tv.tolist(), "array": tv, "esignal": T.electrical_signal(tv), "len1": [float(tv[0])]}[thr_form]
     ctx.describe(kind=kind, n=n, thr_form=thr_form, scale=scale)
     d0 = core.digest(x.signal, x.noise)
